@@ -118,19 +118,19 @@ Proof.
     + discriminate.
 Qed.
 
-(** the nine-way match: no error means the spread is possible; it stops exactly on a same-interface spread *)
+(** the nine-way match: no error means the spread is possible, and the selection set is always checked next *)
 Lemma spread_match_sound S pos root cond :
   In (TSType root) S -> In (TSType cond) S -> is_composite root = true ->
   fst (spread_match S pos root cond) = [] ->
   applies S root cond = true
-  /\ snd (spread_match S pos root cond) = negb (same_iface (Some root) (Some cond)).
+  /\ snd (spread_match S pos root cond) = true.
 Proof.
   intros Hr Hc Hcomp H. unfold applies, type_name. rewrite Hcomp. cbn [negb orb].
   destruct root as [d p n dirs kw|d p n impls dirs fs kw|d p n impls dirs fs kw|d p n dirs members kw
                    |d p n dirs vals kw|d p n dirs fields kw]; try discriminate Hcomp;
   destruct cond as [d' p' n' dirs' kw'|d' p' n' impls' dirs' fs' kw'|d' p' n' impls' dirs' fs' kw'|d' p' n' dirs' members' kw'
                    |d' p' n' dirs' vals' kw'|d' p' n' dirs' fields' kw'];
-  cbn [is_composite negb orb same_iface spread_match fst snd type_name typedef_name] in *;
+  cbn [is_composite negb orb spread_match fst snd type_name typedef_name] in *;
   try (split; reflexivity).
   - (* object / object *)
     destruct (str_eqb (iname n) (iname n')) eqn:E; [|discriminate]. split; reflexivity.
@@ -299,8 +299,7 @@ Section Walk.
         rewrite <- mem_str_mem, Es, Efg. constructor.
         * apply (dirs_good S D vars Hwf). exact Htd.
         * rewrite <- get_type_sp, Econd.
-          destruct (same_iface (Some root) (Some cond)); [constructor|].
-          cbn [negb] in Hcont. apply (IH _ cond (fr_sel target) (get_type_In _ _ _ Econd) Hcont k).
+          apply (IH _ cond (fr_sel target) (get_type_In _ _ _ Econd) Hcont k).
     - (* inline fragment *)
       cbn [check_selection] in Hc. unfold check_inline_fragment in Hc.
       apply app_nil_inv in Hc as [Hd Hc]. destruct sub as [q l].
@@ -312,12 +311,9 @@ Section Walk.
         constructor; [|constructor].
         * split; [|split]; [|constructor|intros n; discriminate].
           intros r. destruct r; try reflexivity; cbn [site_ok]; rewrite <- get_type_sp, Econd; [|exact Happ].
-          destruct (same_iface (Some root) (Some cond)) eqn:Esi.
-          -- destruct root; try discriminate Esi. destruct cond; try discriminate Esi. reflexivity.
-          -- cbn [negb] in Hcont. apply (check_selection_set_composite _ _ _ _ Hcont).
+          apply (check_selection_set_composite _ _ _ _ Hcont).
         * apply (dirs_good S D vars Hwf). exact Hd.
-        * destruct (same_iface (Some root) (Some cond)); [constructor|].
-          cbn [negb] in Hcont. apply (IH seen cond (SelSet q l) (get_type_In _ _ _ Econd) Hcont fv).
+        * apply (IH seen cond (SelSet q l) (get_type_In _ _ _ Econd) Hcont fv).
       + constructor.
         * apply (dirs_good S D vars Hwf). exact Hd.
         * apply (IH seen root (SelSet q l) Hroot Hc fv).
